@@ -80,6 +80,10 @@ CHECKS = {
    text="(a) reference-model monitor: vp/model/imports.py (the documented search: importing file's directory then load paths in order; literal+partial for explicit extensions; import-only files for @import; .sass/.scss then .css then index files; extension appended to the whole basename) must select the file whose self-naming marker reaches the output, or both must fail; (b) offline checker of the Fs call trace recorded by the harness' in-memory Fs: every is_file/is_dir target is a candidate of that search and only the entry and the chosen file are read; (c) isolation: the worker's real working directory is populated with decoys that would win if the real disk were consulted; (d) plain-CSS imports emitted without touching the Fs; (e) a missing import is an error located at the import site; thorough adds strace on a batch (no file syscall during compilations)",
    note="ambiguous layouts are not generated (excluded by the quantifier); virtual paths are relative so that real-disk decoys in the cwd are meaningful",
    technique="runtime monitoring: reference-model oracle + offline event-log (Fs trace) confinement checker + real-disk decoys; strace in thorough tier"),
+ "C12": dict(engine="vw+vp",
+   text="reference-model monitor: vp/model/modules.py (module cache keyed by canonical path, execution after the module's own @use/@forward rules, CSS emitted once in dependency order, namespace-only and public-only visibility, @forward views with show/hide/prefix, configuration passing with !default, already-loaded and not-configurable errors, loops) predicts for generated in-memory projects the Logger event log of `@debug \"exec <module>\"` lines (each loaded module exactly once, whatever the number of users and URL spellings), the order and multiplicity of module CSS markers, and the value or error class of one probe per compilation (ns.$x, ns.f(), @include ns.m, private and undefined members, assignment through one namespace observed through another); plus a table of sass:math/color/selector/meta functions compared with their global aliases",
+   note="error classes only (not wording); projects where two forwarded modules define the same member are outside the judged fragment",
+   technique="runtime monitoring: reference-model oracle over Logger event logs, outputs and error classes of generated multi-file projects"),
 }
 
 ALL = ["C%02d" % i for i in range(1, 21)]
